@@ -1,6 +1,6 @@
 (** C01 — Benchmark records survive a write/read round trip.
-    Statements only; proofs are in Proofs/WriterMap.v, Proofs/WriterLines.v, Proofs/Writer.v
-    (on top of the reader theorems of C02).
+    Statements only; proofs are in Proofs/WriterMap.v, Proofs/WriterLines.v, Proofs/Writer.v,
+    Proofs/ReaderFields.v, Proofs/WriterText.v (on top of the reader theorems of C02).
 
     Quantified library behaviour: [is_space is_lower is_upper] (unicode classes;
     the only fact used is [colon_ok]: ':' is neither white space nor upper
@@ -11,7 +11,8 @@
     (LF is white space) is used to derive that keys contain no LF. *)
 From Perf Require Import Base.Bytes Base.B64 Base.Utf8 Base.Unicode
   Model.Name Model.Extract Model.Units Model.Reader Model.Files Model.Writer
-  Proofs.ReaderSlots Proofs.Reader Proofs.WriterMap Proofs.WriterLines Proofs.WriterClean Proofs.Writer.
+  Proofs.ReaderSlots Proofs.Reader Proofs.WriterMap Proofs.WriterLines Proofs.WriterClean Proofs.Writer
+  Proofs.ReaderFields Proofs.WriterText.
 Local Open Scope N_scope.
 
 Definition colon_ok (is_space is_upper : N -> bool) : Prop := is_space 58 = false /\ is_upper 58 = false.
@@ -30,15 +31,19 @@ Theorem C01_writer_belief_invariant : forall w R m,
 Proof. exact cfg_part_ok. Qed.
 Print Assumptions C01_writer_belief_invariant.
 
-(** [WFhist seen recs]: a stream of results and unit-metadata records the format
-    can carry.  Per result ([WFres]): distinct keys; every key recognised by
-    parseKeyValueLine; file values non-empty, not starting with a blank, no LF,
-    not ending in CR; name without white space; >= 1 measurement; the printed
-    iteration count and measurements are single fields that atoi / atof read
-    back exactly; each line it can cause stays under the scanner's 64 KiB limit
-    (size clauses on the key, key+value and benchmark line).  Per metadata
-    record ([WFunit]): unit = Tidy of the written unit, written unit and
-    key=value are fields, key non-empty without '='; its (unit, key) is new
+(** [WFhist prev seen recs]: a stream of results and unit-metadata records the
+    format can carry.  Per result ([WFres]): distinct keys; every FILE entry has
+    a key recognised by parseKeyValueLine and a value that is non-empty, does
+    not start with a blank, has no LF and does not end in CR (internal entries -
+    tool labels such as ".file" - are unconstrained: the writer never prints
+    them); name without white space; >= 1 measurement; the printed iteration
+    count and measurements are single fields that atoi / atof read back exactly;
+    each line it can cause stays under the scanner's 64 KiB limit.  From one
+    result to the next ([stays], [prev] = configuration of the previous result,
+    [] at the start): a key that could not stand on a line of its own does not
+    disappear (the writer prints "key:" for every key that disappears).  Per
+    metadata record ([WFunit]): unit = Tidy of the written unit, written unit
+    and key=value are fields, key non-empty without '='; its (unit, key) is new
     with respect to [seen] and to the earlier records of the stream.
     All conditions are on the records, none on the output. *)
 
@@ -52,7 +57,7 @@ Theorem C01_roundtrip_history :
   forall is_space is_lower is_upper atoi parse_float fmt_g,
   colon_ok is_space is_upper -> is_space 10 = true ->
   forall (recs : list record) (st : rstate) (fname : bytes),
-  WFhist is_space is_lower is_upper atoi parse_float fmt_g (ukeys (rs_units st)) recs ->
+  WFhist is_space is_lower is_upper atoi parse_float fmt_g [] (ukeys (rs_units st)) recs ->
   exists out st',
     read_file is_space is_lower is_upper atoi parse_float st fname [] (emit fmt_g recs) = (out, None, st') /\
     Forall2 rt_equiv out recs.
@@ -64,7 +69,7 @@ Theorem C01_internal_never_reappears :
   forall is_space is_lower is_upper atoi parse_float fmt_g,
   colon_ok is_space is_upper -> is_space 10 = true ->
   forall (recs : list record) (st : rstate) (fname : bytes),
-  WFhist is_space is_lower is_upper atoi parse_float fmt_g (ukeys (rs_units st)) recs ->
+  WFhist is_space is_lower is_upper atoi parse_float fmt_g [] (ukeys (rs_units st)) recs ->
   exists out st',
     read_file is_space is_lower is_upper atoi parse_float st fname [] (emit fmt_g recs) = (out, None, st') /\
     Forall2 (fun o w => match o, w with
@@ -80,9 +85,9 @@ Print Assumptions C01_internal_never_reappears.
 Theorem C01_written_lines_clean :
   forall is_space is_lower is_upper atoi parse_float fmt_g,
   colon_ok is_space is_upper -> is_space 10 = true ->
-  forall recs seen w,
-  WFhist is_space is_lower is_upper atoi parse_float fmt_g seen recs ->
-  keys_ok is_space is_lower is_upper (w_have w) ->
+  forall recs prev seen w,
+  WFhist is_space is_lower is_upper atoi parse_float fmt_g prev seen recs ->
+  NoDup (keys (w_have w)) -> (forall k, vlook (w_have w) k = vlook prev k) ->
   Forall line_clean (map (render fmt_g) (fst (write_all w recs))).
 Proof. exact written_lines_clean. Qed.
 Print Assumptions C01_written_lines_clean.
@@ -91,6 +96,51 @@ Print Assumptions C01_written_lines_clean.
 Theorem C01_split_join_lines : forall ls, Forall line_clean ls -> split_lines (join_lines ls) = map Line ls.
 Proof. exact split_join_lines. Qed.
 Print Assumptions C01_split_join_lines.
+
+(** ** the text route: text -> reader -> writer -> reader *)
+
+Definition lower_ok (is_lower : N -> bool) : Prop := is_lower 66 = false /\ is_lower 85 = false.
+
+(** whatever the reader delivers from a text (from any earlier reader state,
+    with any labels, up to an I/O error if a line exceeds the scanner's limit),
+    minus the syntax-error records the writer skips, is a stream the format can
+    carry - under two exclusions, both boolean functions of the text and the
+    oracles: no configuration value ends in CR ([no_value_ends_cr], the known
+    finding); the numbers of every result re-print ([recs_reprint]: printed
+    iteration count read back by atoi, every printed measurement one field that
+    atof reads back to the same float, the re-printed benchmark line under
+    64 KiB). *)
+Theorem C01_reader_output_WF :
+  forall is_space is_lower is_upper atoi parse_float fmt_g,
+  lower_ok is_lower ->
+  forall (t : bytes) (st : rstate) (fname : bytes) (labels : list (bytes * bytes)) recs e st1,
+  no_value_ends_cr is_space is_lower is_upper atoi parse_float t = true ->
+  read_file is_space is_lower is_upper atoi parse_float st fname labels t = (recs, e, st1) ->
+  recs_reprint is_space atoi parse_float fmt_g recs = true ->
+  WFhist is_space is_lower is_upper atoi parse_float fmt_g [] (ukeys (rs_units st)) (data recs).
+Proof. exact reader_output_WF. Qed.
+Print Assumptions C01_reader_output_WF.
+
+(** read a text, write what was read, read the output: the same results and
+    unit-metadata records in order - name, iteration count, (written value,
+    written unit) pairs, exactly the FILE configuration as a map (labels and
+    other internal configuration do not come back); metadata records equal; no
+    error on the way back.  The second reader may be any reader whose
+    unit-metadata table has the keys the first one started with. *)
+Theorem C01_roundtrip_text :
+  forall is_space is_lower is_upper atoi parse_float fmt_g,
+  lower_ok is_lower -> colon_ok is_space is_upper -> is_space 10 = true ->
+  forall (t : bytes) (st : rstate) (fname : bytes) (labels : list (bytes * bytes))
+         (st2 : rstate) (fname2 : bytes) recs e st1,
+  no_value_ends_cr is_space is_lower is_upper atoi parse_float t = true ->
+  read_file is_space is_lower is_upper atoi parse_float st fname labels t = (recs, e, st1) ->
+  recs_reprint is_space atoi parse_float fmt_g recs = true ->
+  ukeys (rs_units st2) = ukeys (rs_units st) ->
+  exists out st',
+    read_file is_space is_lower is_upper atoi parse_float st2 fname2 [] (emit fmt_g recs) = (out, None, st') /\
+    Forall2 rt_equiv out (data recs).
+Proof. exact roundtrip_text. Qed.
+Print Assumptions C01_roundtrip_text.
 
 (** ** concrete oracles for the examples *)
 Definition ex_atoi (f : bytes) : option Z := if beq f (bs "1") then Some 1%Z else None.
@@ -102,37 +152,43 @@ Definition ex_res (cfgs : list cfg) : result := mkResult cfgs (bs "X") 1 [ex_val
 Example C01_colon_ok : colon_ok go_is_space go_is_upper.
 Proof. split; reflexivity. Qed.
 
+Example C01_lower_ok : lower_ok go_is_lower.
+Proof. split; reflexivity. Qed.
+
 Definition ex_unit : umetap := mkUmetap (mkUmeta (bs "sec/op") (bs "better") (bs "ns/op") (bs "lower")) [] 0.
 
-(** non-vacuity: a file key, an internal key, a rescaled measurement, a unit-metadata record *)
+(** non-vacuity: a file key, an internal key the reader would not recognise on a
+    line (".file"), a rescaled measurement, a unit-metadata record *)
 Example C01_WFhist_example :
-  WFhist go_is_space go_is_lower go_is_upper ex_atoi ex_pf ex_fmt []
-    [RRes (ex_res [mkCfg (bs "goos") (bs "linux") true; mkCfg (bs "note") (bs "x") false]); RUnit ex_unit].
+  WFhist go_is_space go_is_lower go_is_upper ex_atoi ex_pf ex_fmt [] []
+    [RRes (ex_res [mkCfg (bs "goos") (bs "linux") true; mkCfg (bs ".file") (bs "x") false]); RUnit ex_unit].
 Proof.
   assert (Hs : forall l : bytes, (N.of_nat (length l) <? max_token) = true -> short l)
     by (intros l H; now apply N.ltb_lt).
-  apply WFh_res; [|apply WFh_unit; [| |apply WFh_nil]].
+  assert (Hf : forall f, fieldb go_is_space f = true -> field_ok go_is_space f) by apply fieldb_ok.
+  apply WFh_res; [| |apply WFh_unit; [| |apply WFh_nil]].
   - split; [|split].
-    + split; [|split].
+    + split.
       * repeat constructor; cbn; intuition discriminate.
-      * constructor; [|constructor; [|constructor]];
-          (split; [cbn; repeat split; try discriminate; vm_compute; reflexivity|apply Hs; reflexivity]).
       * constructor; [|constructor; [|constructor]]; cbn [c_file c_key c_val]; [intros _|discriminate].
+        split; [split; [cbn; repeat split; try discriminate; vm_compute; reflexivity|apply Hs; reflexivity]|].
         split; [cbn; split; discriminate|].
         split; [|apply Hs; reflexivity].
         split; [intros H; cbn in H; intuition discriminate|].
         apply (no_cr_end_app [] (bs "linux")); [discriminate|cbn; intuition discriminate].
     + split; [|split; [|split; [|split]]].
-      * vm_compute. repeat constructor.
-      * vm_compute. repeat constructor; try discriminate.
+      * apply (Hf (bs "X")). vm_compute. reflexivity.
+      * change (Forall (field_ok go_is_space) [bs "1"; bs "1"; bs "ns/op"]).
+        repeat constructor; apply Hf; vm_compute; reflexivity.
       * reflexivity.
       * repeat constructor.
       * discriminate.
     + apply Hs. reflexivity.
+  - constructor.
   - split.
-    + split; [reflexivity|]. split; [split; [discriminate|vm_compute; repeat constructor]|].
+    + split; [reflexivity|]. split; [apply (Hf (bs "ns/op")); vm_compute; reflexivity|].
       split; [discriminate|]. split; [cbn; intuition discriminate|].
-      split; [discriminate|vm_compute; repeat constructor].
+      apply (Hf (bs "better=lower")). vm_compute. reflexivity.
     + apply Hs. reflexivity.
   - cbn. tauto.
 Qed.
@@ -174,3 +230,45 @@ Example C01_example :
   = bs "a: 1" ++ [x0a] ++ bs "b: 2" ++ [x0a] ++ [x0a] ++ bs "BenchmarkX 1 1 ns/op" ++ [x0a] ++ [x0a]
     ++ bs "a:" ++ [x0a] ++ bs "b:" ++ [x0a] ++ [x0a] ++ bs "BenchmarkX 1 1 ns/op" ++ [x0a].
 Proof. vm_compute. reflexivity. Qed.
+
+(** the hypotheses of the text route are satisfiable: a text with configuration
+    (set, changed, deleted), a unit-metadata line, a malformed line (its error
+    record is skipped by the writer), a rescaled unit, read with a ".file" label *)
+Definition ex_text : bytes :=
+  bs "goos: linux" ++ [x0a] ++ bs "note:   a b" ++ [x0d; x0a] ++ bs "Unit ns/op better=lower" ++ [x0a]
+  ++ bs "BenchmarkX 1 1 ns/op" ++ [x0a] ++ bs "goos: plan9" ++ [x0a] ++ bs "note:" ++ [x0a]
+  ++ bs "BenchmarkBad x" ++ [x0a] ++ bs "BenchmarkY-8   1   1 ns/op   1 B/op" ++ [x0a].
+
+Example C01_text_example :
+  no_value_ends_cr go_is_space go_is_lower go_is_upper ex_atoi ex_pf ex_text = true /\
+  let '(recs, e, _) := read_file go_is_space go_is_lower go_is_upper ex_atoi ex_pf rs_empty (bs "f")
+                         [(bs ".file", bs "f")] ex_text in
+  recs_reprint go_is_space ex_atoi ex_pf ex_fmt recs = true /\ e = None /\ length recs = 4%nat /\
+  emit ex_fmt recs =
+    bs "Unit ns/op better=lower" ++ [x0a] ++ bs "goos: linux" ++ [x0a] ++ bs "note: a b" ++ [x0a] ++ [x0a]
+    ++ bs "BenchmarkX 1 1 ns/op" ++ [x0a] ++ [x0a] ++ bs "goos: plan9" ++ [x0a] ++ bs "note:" ++ [x0a] ++ [x0a]
+    ++ bs "BenchmarkY-8 1 1 ns/op 1 B/op" ++ [x0a].
+Proof. vm_compute. repeat split. Qed.
+
+(** why [recs_reprint] has a size clause: %v may print a number longer than it
+    was written ("1e9" -> "1e+09").  A text with one benchmark line of 65532
+    bytes is read without error (one result, 10920 measurements, each number
+    re-printed by %v reads back to the same float); the line the writer prints
+    for it has 87372 bytes and the
+    reader stops on it with the scanner's "token too long" - no record comes
+    back.  (Confirmed on the real reader and writer.) *)
+Definition long_pf (f : bytes) : option b64 :=
+  if beq f (bs "1e9") || beq f (bs "1e+09") then Some (b64_of_Z 1000000000) else None.
+Definition long_fmt (x : b64) : bytes := bs "1e+09".
+Definition long_text : bytes := bs "BenchmarkX 1" ++ concat (repeat (bs " 1e9 u") (N.to_nat 10920)) ++ [x0a].
+
+Definition long_read (t : bytes) : list record * option Z * rstate :=
+  read_file go_is_space go_is_lower go_is_upper ex_atoi long_pf rs_empty (bs "f") [] t.
+
+Theorem C01_long_line_refuted :
+  no_value_ends_cr go_is_space go_is_lower go_is_upper ex_atoi long_pf long_text = true /\
+  (let recs := fst (fst (long_read long_text)) in
+   (length recs, snd (fst (long_read long_text)), fst (long_read (emit long_fmt recs))))
+  = (1%nat, None, ([], Some 0%Z)).
+Proof. vm_compute. split; reflexivity. Qed.
+Print Assumptions C01_long_line_refuted.
